@@ -128,6 +128,10 @@ type Ctx struct {
 	ordinal  int
 }
 
+// SetOrdinalBase moves this context's scenario ordinals (used when one check re-drives another's
+// harness so that their claim tables do not collide).
+func (c *Ctx) SetOrdinalBase(n int) { c.ordinal = n }
+
 // NextClaim returns the claim function for the next scenario of this run (nil when unsharded).
 func (c *Ctx) NextClaim() func(int64) bool {
 	if c.Claims == nil || c.NShards <= 1 {
